@@ -470,6 +470,7 @@ def run(ctx):
     ctx.notes["model_difference_classes"] = nt
     for i in (0, len(cases) // 3, len(cases) // 2, len(cases) - 1):
         ctx.sample({"case": cases[i], "impl": impl[i], "model": model[i]})
+    wait_for_ecu_probe(ctx)
     ctx.notes["silence_on_line_transports"] = (
         "a silent peer on tcp-lines / unix-lines only produces timeouts: the client retries on the same connection and ends "
         "with MissingResponse in bounded time; no reconnect is attempted (model and implementation agree)")
@@ -486,6 +487,40 @@ def _replay_one(ctx, c):
     for clause, text in v:
         print(f"property clause violated by the implementation: {clause}: {text}")
     return 1 if (v or a != b) else 0
+
+
+async def _impl_wait(case, wt):
+    from gallia.services.uds.ecu import ECU
+    loop = asyncio.get_event_loop()
+    w, t = await _setup(case)
+    ecu = ECU(t, timeout=0.5, max_retry=1)
+    try:
+        r = await ecu.wait_for_ecu(timeout=wt)
+        res = f"returned:{r}"
+    except Exception as e:  # noqa: BLE001
+        res = "raised:" + type(e).__name__
+    return f"{res} {_ms(loop.time()) - T0} {len(w.conns)}"
+
+
+def wait_for_ecu_probe(ctx):
+    """observation (not judged, no model): ECU.wait_for_ecu(10 s) after the idle connection was closed by a peer that is
+    down for 3 s - `_wait_for_ecu_endless_loop` reconnects inside its `except` clause"""
+    _ensure_patched()
+    obs = {}
+    for tr in LW.TRANSPORTS:
+        case = dict(tr=tr, script="final", cut=0, kind="eof", delta=None, restart=3000, tmo=500, level="C", mr=1)
+        try:
+            obs[tr], _ = vrun(_impl_wait(case, 10), horizon=7200.0)
+        except Stall:
+            obs[tr] = "blocked"
+        except Exception as e:  # noqa: BLE001
+            obs[tr] = "harness-exc:" + type(e).__name__
+    ctx.notes["wait_for_ecu_after_eof_peer_down_3s"] = obs
+    ctx.notes["wait_for_ecu_note"] = (
+        "observation: on the transports whose reconnect() connects once (tcp-lines, unix-lines, hsfz) wait_for_ecu() does not "
+        "wait for a peer that is still down: the ConnectionRefusedError of the reconnect inside the except clause of "
+        "_wait_for_ecu_endless_loop leaves wait_for_ecu after the first ping; DoIP (10 s reconnect window) returns True. "
+        "A connection error in bounded time - consistent with the property's first sentence; recorded, not judged")
 
 
 def replay(ctx, case):
